@@ -215,6 +215,48 @@ def tt_setup(names):
     _tt["index"] = idx
 
 
+_dnf_cache = {}
+
+
+def _dnf_of(tt):
+    """z3 formula whose models (over the registered variables) are exactly the set bits of the truth table"""
+    key = (_tt["vars"], tt)
+    f = _dnf_cache.get(key)
+    if f is not None:
+        return f
+    names = _tt["vars"]
+    k = len(names)
+    vs = [z3.Bool(nm) for nm in names]
+    full = _tt["full"]
+    ones = bin(tt).count("1")
+    if tt == full:
+        f = z3.BoolVal(True)
+    elif ones <= (1 << k) // 2:
+        terms = []
+        j = 0
+        t = tt
+        while t:
+            if t & 1:
+                terms.append(z3.And([vs[i] if (j >> i) & 1 else z3.Not(vs[i]) for i in range(k)]) if k else z3.BoolVal(True))
+            t >>= 1
+            j += 1
+        f = z3.Or(terms) if terms else z3.BoolVal(False)
+    else:
+        terms = []
+        t = tt ^ full
+        j = 0
+        while t:
+            if t & 1:
+                terms.append(z3.Or([z3.Not(vs[i]) if (j >> i) & 1 else vs[i] for i in range(k)]))
+            t >>= 1
+            j += 1
+        f = z3.And(terms)
+    if len(_dnf_cache) > 2000:
+        _dnf_cache.clear()
+    _dnf_cache[key] = f
+    return f
+
+
 def tt_disable():
     _tt["vars"] = None
     _tt["memo"] = {}
@@ -301,22 +343,43 @@ class Ctx:
     def check(self, *extra):
         t = time.time()
         self.queries += 1
-        r = self.solver.check(*extra)
+        self._last_solver = self._query_solver()
+        r = self._last_solver.check(*extra)
         self.solver_time += time.time() - t
         s = str(r)
         self.verdicts[s] = self.verdicts.get(s, 0) + 1
         if s == "unknown":
-            raise Inconclusive("solver returned unknown: %s" % self.solver.reason_unknown())
+            raise Inconclusive("solver returned unknown: %s" % self._last_solver.reason_unknown())
+        return s
+
+    def _note(self, l):
+        """record a path-condition literal.  In truth-table mode the solver is not touched here: queries get the
+        exact set of satisfying assignments as a DNF instead (see _query_solver); otherwise assert incrementally."""
+        self.pc.append(l)
+        if self.pc_tt is not None:
+            t = tt_of(l)
+            if t is None:
+                # a variable outside the registered set: leave truth-table mode, hand the whole pc to the solver
+                self.pc_tt = None
+                for x in self.pc:
+                    self.solver.add(toz3(x))
+            else:
+                self.pc_tt &= t
+        else:
+            self.solver.add(toz3(l))
+
+    def _query_solver(self):
+        if self.pc_tt is None:
+            return self.solver
+        s = z3.Solver()
+        s.set("timeout", SOLVER_TIMEOUT_MS)
+        s.add(_dnf_of(self.pc_tt))
         return s
 
     def assume(self, l):
         if l == 1:
             return
-        self.solver.add(toz3(l))
-        self.pc.append(l)
-        if self.pc_tt is not None:
-            t = tt_of(l)
-            self.pc_tt = None if t is None else (self.pc_tt & t)
+        self._note(l)
 
     def feasible(self):
         return self.check() == "sat"
@@ -378,11 +441,7 @@ class Ctx:
             else:
                 self.unique += 1
         lit = l if d else l ^ 1
-        self.solver.add(toz3(lit))
-        self.pc.append(lit)
-        if self.pc_tt is not None:
-            t = tt_of(lit)
-            self.pc_tt = None if t is None else (self.pc_tt & t)
+        self._note(lit)
         return d
 
     def model_count(self):
@@ -405,7 +464,7 @@ class Ctx:
             if self.check() != "sat":
                 self.discharged += 1   # vacuous on an infeasible path (cannot happen after branch())
                 return True
-        m = self.solver.model()
+        m = self._last_solver.model()
         env = {}
         for d in m.decls():
             v = m[d]
@@ -420,7 +479,7 @@ class Ctx:
         """a model of the current path condition (name -> bool)"""
         if self.check() != "sat":
             raise PathAbort("infeasible")
-        m = self.solver.model()
+        m = self._last_solver.model()
         env = {}
         for d in m.decls():
             v = m[d]
